@@ -104,6 +104,22 @@ end
 def GM (okc : MEvent → Prop) (σ : Path) (E : List Event) : Prop :=
   GD okc σ E ∧ (E = [] ∨ ∃ m0 E', E = .marshal m0 :: E' ∧ m0.path = σ)
 
+/-- a single message: its root event at `σ`, then only events strictly below `σ` -/
+def GM1 (okc : MEvent → Prop) (σ : Path) (E : List Event) : Prop :=
+  GD okc σ E ∧ ∃ m0 E', E = .marshal m0 :: E' ∧ m0.path = σ ∧ ∀ m, .marshal m ∈ E' → m.path ≠ σ
+
+theorem GM1.toGM {okc : MEvent → Prop} {σ : Path} {E : List Event} (h : GM1 okc σ E) : GM okc σ E := by
+  obtain ⟨hgd, m0, E', rfl, hm0, _⟩ := h
+  exact ⟨hgd, Or.inr ⟨m0, E', rfl, hm0⟩⟩
+
+theorem gn_not_at {okc : MEvent → Prop} {σ : Path} {N : List String} {E : List Event} (h : GN okc σ N E) :
+    ∀ m, .marshal m ∈ E → m.path ≠ σ := by
+  intro m hm heq
+  obtain ⟨⟨g, i, r, _, hp⟩, _⟩ := h.1 m hm
+  rw [hp] at heq
+  have := congrArg List.length heq
+  simp at this
+
 theorem isChild_false_shorter (p q : Path) (h2 : 2 ≤ p.length) (hq : q.length < p.length) : isChild p q = false := by
   unfold isChild
   have : (p.dropLast == q.dropLast) = false := by
@@ -174,7 +190,7 @@ theorem field_area (hpk : PrimLink abort pk okc) (tb : MsgTables) (enc : Bool) (
   (decodeArea_gd abort hpk tb enc t ht _ s).mono (fun _ h => GN.of_GD h)
 
 theorem decodeCommand_gd (hpk : PrimLink abort pk okc) (tb : MsgTables) (h : tb.shapeOk pk = true) (σ : Path) (s0 : St) :
-    Tr (GM okc σ) s0 (decodeCommand abort tb σ s0) := by
+    Tr (GM1 okc σ) s0 (decodeCommand abort tb σ s0) := by
   have h' := h
   unfold MsgTables.shapeOk at h'
   simp only [Bool.and_eq_true, decide_eq_true_eq] at h'
@@ -183,7 +199,7 @@ theorem decodeCommand_gd (hpk : PrimLink abort pk okc) (tb : MsgTables) (h : tb.
   refine Tr.of_scs [⟨s0.pos, [], 0, none⟩] ?_
   refine Tr.of_emit (P := GN okc σ ["tag", "commandSize", "commandCode", "handles", "authSize", "authorizationArea", "parameters"])
     _ ?_ (fun E hE => ⟨GD.of_parent ⟨σ, .named "Command" false, none, "", 0⟩ rfl (fun n => named_ne_list _ _ n) rfl hE,
-      Or.inr ⟨_, _, rfl, rfl⟩⟩)
+      _, _, rfl, rfl, gn_not_at hE⟩)
   refine Tr.msgCatch_gn abort _ _ _ _ (field_prim abort hpk _ oTag σ "tag" _) (fun tag s1 _ => ?_) (by decide)
   refine Tr.msgCatch_gn abort _ _ _ _ (field_prim abort hpk _ oCsz σ "commandSize" _) (fun csz s2 _ => ?_) (by decide)
   split
@@ -232,7 +248,7 @@ theorem decodeCommand_gd (hpk : PrimLink abort pk okc) (tb : MsgTables) (h : tb.
             simp only [List.mem_singleton] at hg; subst hg; simp)
 
 theorem decodeResponse_gd (hpk : PrimLink abort pk okc) (tb : MsgTables) (h : tb.shapeOk pk = true) (cc : Option Int) (encFlag : Bool) (σ : Path) (s0 : St) :
-    Tr (GM okc σ) s0 (decodeResponse abort tb cc encFlag σ s0) := by
+    Tr (GM1 okc σ) s0 (decodeResponse abort tb cc encFlag σ s0) := by
   have h' := h
   unfold MsgTables.shapeOk at h'
   simp only [Bool.and_eq_true, decide_eq_true_eq] at h'
@@ -252,7 +268,7 @@ theorem decodeResponse_gd (hpk : PrimLink abort pk okc) (tb : MsgTables) (h : tb
   refine Tr.of_scs [⟨s0.pos, [], 0, none⟩] ?_
   refine Tr.of_emit (P := GN okc σ ["tag", "responseSize", "responseCode", "handles", "parameterSize", "parameters", "authorizationArea"])
     _ ?_ (fun E hE => ⟨GD.of_parent ⟨σ, .named "Response" false, none, "", 0⟩ rfl (fun n => named_ne_list _ _ n) rfl hE,
-      Or.inr ⟨_, _, rfl, rfl⟩⟩)
+      _, _, rfl, rfl, gn_not_at hE⟩)
   refine Tr.msgCatch_gn abort _ _ _ _ (field_prim abort hpk _ oTag σ "tag" _) (fun tag s1 _ => ?_) (by decide)
   refine Tr.msgCatch_gn abort _ _ _ _ (field_prim abort hpk _ oRsz σ "responseSize" _) (fun rsz s2 _ => ?_) (by decide)
   split
@@ -346,12 +362,13 @@ theorem decodeStream_gm (hpk : PrimLink abort pk okc) (tb : MsgTables) (h : tb.s
     unfold decodeStream
     split
     · exact Tr.ok_emit1 _ _ _ (hroot _)
-    · refine (decodeCommand_gd abort hpk tb h σ s).bind (fun cmd t _ => ?_) (fun _ hh => hh) (fun _ _ h1 h2 => h1.append hσ h2)
+    · refine ((decodeCommand_gd abort hpk tb h σ s).mono (fun _ hh => hh.toGM)).bind (fun cmd t _ => ?_) (fun _ hh => hh)
+        (fun _ _ h1 h2 => h1.append hσ h2)
       split
       · exact Tr.crash_nil _ _ _ hnil
       · split
         · exact Tr.ok_emit1 _ _ _ (hroot _)
-        · exact (decodeResponse_gd abort hpk tb h _ _ σ t).bind (fun _ t2 _ => ih t2) (fun _ hh => hh)
+        · exact ((decodeResponse_gd abort hpk tb h _ _ σ t).mono (fun _ hh => hh.toGM)).bind (fun _ t2 _ => ih t2) (fun _ hh => hh)
             (fun _ _ h1 h2 => h1.append hσ h2)
 
 /-- **every run of every top-level decode, in either mode, on every input** -/
